@@ -759,7 +759,8 @@ void ExpressionBuilder::expr_load_strategy()
 
 void ExpressionBuilder::expr_save_strategy(const char* strategy_name)
 {
-    assert(fragments.size() == 1);
+    // (a property with a syntax error earlier in the same text may have left operands behind)
+    assert(fragments.size() >= 1);
     fragments[0] = expression_t::create_binary(SAVE_STRAT, fragments[0], make_constant(strategy_name), position);
 }
 
